@@ -49,11 +49,12 @@ check("C04", "exploration",
       "limit in 7 shapes x 4 limits, 24 runaway-recursion shapes, self-dependent values, syntactic "
       "nesting sweep) on the rel and overflow-checked builds while a panic hook, the worker exit "
       "status and same-thread sentinel evaluations are monitored; held = no panic/abort/stack "
-      "overflow on any observed execution.",
+      "overflow on any observed execution; a sample of the jobs is then replayed under AddressSanitizer, valgrind memcheck "
+      "and (thorough) Miri, where a report or death by signal is a violation.",
       "Allocation-failure aborts under RLIMIT_AS (8 GiB; 2 GiB for runaway jobs) are classed "
       "`resource`, watchdog expiry is inconclusive; both are counted in evidence, not as verdicts. "
       "Says nothing about inputs outside the generated pools.",
-      "runtime monitoring: panic hook + exit-status monitor + sentinel histories under stress/fuzz workloads, rel and overflow-checked builds",
+      "runtime monitoring: panic hook + exit-status monitor + sentinel histories under stress/fuzz workloads on rel and overflow-checked builds; ASan / memcheck / Miri replay of a job sample",
       "DESIGN.md §3 C04")
 
 check("C06", "exploration",
@@ -143,9 +144,11 @@ check("C05", "exploration",
       "through 4 library formats, std.manifestJson / Ex (9 indent/newline/separator variants) / Minified, "
       "std.toString, both string concatenations, parseJson round trips and the CLI, and requires Python's "
       "strict JSON reader to accept every text and read back the bit-identical value with keys ascending; "
-      "values containing functions must be rejected on every path.",
+      "values containing functions must be rejected on every path. Jobs directed at the unsafe byte view of the "
+      "string escaper (every ASCII byte class next to multi-byte sequences) and a sample of the workload are "
+      "replayed under AddressSanitizer, valgrind memcheck and Miri.",
       "Trusts CPython's json module (with NaN/Infinity and duplicate-key guards) and float() rounding.",
-      "runtime monitoring: independent-parser round-trip oracle over boundary-dense values on every JSON-producing path",
+      "runtime monitoring: independent-parser round-trip oracle over boundary-dense values on every JSON-producing path; ASan / memcheck / Miri on the escape writer",
       "DESIGN.md §3 C05")
 
 check("C07", "fault_enumeration",
@@ -263,11 +266,12 @@ check("C18", "exploration",
       "operation-sequence driver runs every history of <= 4 (quick) / 6 (thorough) operations (intern str / bytes, clone, drop, "
       "cast, pool hand-over) over 8 contents and 4 handle slots plus long random histories with hand-over to another thread "
       "against the real interner and an executable model, checking 5 invariants after every operation, in optimised and "
-      "debug-assertion builds and under Miri.",
+      "debug-assertion builds and under Miri. The cyclic and interner-heavy programs plus a sample of the workload are replayed "
+      "through the worker under AddressSanitizer + LeakSanitizer, valgrind memcheck (definite leaks) and Miri.",
       "Objects that stay tracked after the first evaluation of a program are treated as per-thread singletons (the shared "
       "empty object, cached builtin parameter names): a leak is defined as growth per repetition. Miri covers only the "
       "histories it is given (exhaustive to length 2 / 3 plus a few hundred random operations).",
-      "runtime monitoring: gauge monitors at quiescent points (collector), executable-model invariant checker over operation histories (interner), Miri",
+      "runtime monitoring: gauge monitors at quiescent points (collector), executable-model invariant checker over operation histories (interner), Miri / ASan+LSan / memcheck",
       "DESIGN.md §3 C18")
 
 NOT_APPLICABLE = []
@@ -296,8 +300,13 @@ def main():
         "engines": [
             {"name": "jv-worker+python-monitors", "path": "/verif/harness, /verif/mon",
              "serves_properties": sorted(claimed),
-             "kind_free_text": "in-process monitor host (Rust, links the working tree's crates) "
+             "kind_free_text": "in-process monitor host (Rust, links the working tree's crates; built as release-like, "
+                               "overflow-checked, AddressSanitizer and Miri variants, also run under valgrind memcheck) "
                                "driven by Python workload generators and reference oracles"},
+            {"name": "jv-intern", "path": "/verif/harness-intern", "serves_properties": ["C18"],
+             "kind_free_text": "interner operation-history driver with an executable model (native + Miri, Stacked Borrows)"},
+            {"name": "cdriver", "path": "/verif/harness/cdriver", "serves_properties": ["C15"],
+             "kind_free_text": "C program driving libjsonnet.so through its C ABI (also under valgrind memcheck)"},
         ],
         "checks": [CHECKS[k] for k in sorted(CHECKS)],
         "not_applicable": na,
